@@ -9,7 +9,7 @@ CHECKS = {
     "C19": dict(
         level="exploration",
         technique="bounded-exhaustive enumeration of all part names over a segment alphabet and all ordered pairs, executed on the real PackURI, against an RFC 3986 reference model",
-        text="Every part name over a 6-directory x 11-leaf segment alphabet to depth 3 (quick) / 4 (thorough), every ordered pair (P,Q) for the relative_ref/from_rel_ref round trip, every dotted reference against every base; exhaustive within that bound, so a wrong special case (root base, sibling-prefix directories, climbing past the root) cannot hide between sampled pairs.",
+        text="Every part name over a 6-directory x 12-leaf segment alphabet (incl. a full-width digit) to depth 3 (quick) / 4 (thorough), every ordered pair (P,Q) for the relative_ref/from_rel_ref round trip, every dotted reference against every base; exhaustive within that bound, so a wrong special case (root base, sibling-prefix directories, climbing past the root) cannot hide between sampled pairs.",
         note="Trusted: the hand-written RFC 3986 remove_dot_segments / OPC attribute reference model in mc/props/c19.py. Segments outside the alphabet are not explored.",
         design="4/C19"),
 }
@@ -18,19 +18,19 @@ CHECKS.update({
     "C02": dict(
         level="model_checking",
         technique="explicit-state BFS over public-API operation histories executed on the real Presentation (replay mode, canonical-state dedup); every state saved and judged by an independent OPC reader and by semantic comparison with the re-opened file",
-        text="All histories over a 46-operation alphabet (every shape kind, pictures, movies incl. an upper-case media name, charts, replace_data, OLE, notes, hyperlinks set/changed/cleared incl. shared relationships, slide jumps, layout removal incl. through another master's collection, core properties, rejected calls, save, save+re-open) to depth 2 on five generated decks (default, rich, slide names out of order / non-contiguous / 1-5-3) and depth 1 on four corpus decks (handout master, two slide masters, no core properties) (thorough: depth 3 / 2), a cache-sensitive 18-operation sub-alphabet to depth 3 (thorough 4) and a re-used-stream family (one file-like object for every save of a history that grows and shrinks, depth 4 | 5); in every state the saved zip satisfies the statement's closure rules, content types equal created/loaded types, and the re-opened deck shows what memory showed.",
+        text="All histories over a 47-operation alphabet (every shape kind, pictures, movies incl. an upper-case media name, charts, replace_data, OLE, notes, hyperlinks set/changed/cleared incl. shared relationships, slide jumps incl. two shapes sharing one jump, layout removal incl. through another master's collection, core properties, rejected calls, save, save+re-open) to depth 2 on five generated decks (default, rich, slide names out of order / non-contiguous / 1-5-3) and depth 1 on four corpus decks (handout master, two slide masters, no core properties) (thorough: depth 3 / 2), a cache-sensitive 20-operation sub-alphabet to depth 3 (thorough 4) and a re-used-stream family (one file-like object for every save of a history that grows and shrinks, depth 4 | 5); in every state the saved zip satisfies the statement's closure rules, content types equal created/loaded types, and the re-opened deck shows what memory showed.",
         note="Trusted: mc/oracles/opc_ref.py (zipfile + bare lxml), lxml c14n, the semantic snapshot in mc/drivers/state.py (public read API). Canonical state = saved-package digest + populated lazy caches read reflectively; missing hidden state can only merge states.",
         design="4/C02"),
     "C11": dict(
         level="exploration",
         technique="bounded-exhaustive enumeration of every attribute declaration and simple-type class x boundary/neighbour/wrong-type values, executed on the real setters/getters, lexical validity decided by libxml2 against the ISO schemas' simple types",
-        text="159 attribute declarations, 52 simple-type classes and 16 XML enumerations found by reflection, each x every schema bound and enforced bound +-R, rounding-threshold neighbours, int/float/bool/str/None/bytes/list/int-subclass values and every lexical alternative of the schema type for reading (lexical forms the schema makes equivalent must read equal); value alphabets walked in both orders in separate forked children (verdict maps compared), every evaluation under a CPU watchdog (a non-terminating validation is reported, not waited for); a rejected value must leave the attribute unchanged and a value inside the class's own range must not be rejected; exhaustive over that value alphabet (evaluations asserted equal to the closed-form size).",
+        text="159 attribute declarations, 52 simple-type classes and 16 XML enumerations found by reflection, each x every schema bound and enforced bound +-R, rounding-threshold neighbours, int/float/bool/str (incl. non-ASCII decimal digits)/None/bytes/list/int-subclass values and every lexical alternative of the schema type for reading (lexical forms the schema makes equivalent must read equal); value alphabets walked in both orders in separate forked children (verdict maps compared), every evaluation under a CPU watchdog (a non-terminating validation is reported, not waited for); a rejected value must leave the attribute unchanged and a value inside the class's own range must not be rejected; exhaustive over that value alphabet (evaluations asserted equal to the closed-form size).",
         note="Trusted: libxml2 XSD validation of generated probe elements per simple type; mapping (tag, attribute) -> schema type from mc/oracles/xsd.Index (weak rule on overloaded tags: valid for at least one candidate type). Non-finite floats and whitespace-padded forms excluded.",
         design="4/C11"),
     "C20": dict(
         level="exploration",
         technique="exhaustive enumeration of every member of every XML-mapped enumeration, every preset auto-shape row and every writable chart type, compared with the schema enumerations and presetShapeDefinitions.xml shipped in the repository",
-        text="575 enumeration members (run time and module AST: aliases that would fold a token away are seen), 182 auto-shape rows against the standard's preset definitions (with the stated erratum tolerance), 182 add_shape read-backs (live and after re-open), adjustment histories for every adjustable preset (first shape set / loaded with explicit guides, fresh shapes afterwards read the defaults), 29 writable chart types x 9 data sizes read back (fresh, after re-open, and again after ONE data point was formatted), and every chart of the PowerPoint-authored chart-type deck read against the types the repository's acceptance specification documents; the space is finite and enumerated completely.",
+        text="575 enumeration members (run time and module AST: aliases that would fold a token away are seen), 182 auto-shape rows against the standard's preset definitions (with the stated erratum tolerance), 182 add_shape read-backs (live and after re-open), adjustment histories for every adjustable preset (first shape set / loaded with explicit guides, fresh shapes afterwards read the defaults), 29 writable chart types x 9 data sizes read back (fresh, after re-open, and again after ONE data point and the marker outline were formatted), all writable types together on one slide, and every chart of the PowerPoint-authored chart-type deck read against the types the repository's acceptance specification documents; the space is finite and enumerated completely.",
         note="Trusted: spec/ XSDs and presetShapeDefinitions.xml as shipped; the enum -> ST_* table in mc/props/c20.py is cross-checked against the attribute declarations that use each enum.",
         design="4/C20"),
 })
@@ -39,7 +39,7 @@ CHECKS.update({
     "C05": dict(
         level="exploration",
         technique="bounded-exhaustive enumeration of a sink catalogue x metacharacter string set executed through the public API, differential tag-skeleton oracle + reader round trip + save/re-open",
-        text="142 (thorough ~365) string-accepting entry points (names, file names, hyperlink addresses, chart series / category / number-format fields per chart family for add_chart and replace_data, font names, prog-ids, mime type, core properties, renamed placeholders, plus TWIN sinks: two near-identical strings - case-swapped or with a trailing blank - stored side by side in one part; and the same address assigned twice) x ~145 strings (all strings of length <= 2 over the XML metacharacters plus curated entity / CDATA / format-directive / enum-token-like / 255-character / escape-look-alike strings): each call must not raise, the saved parts must re-parse with the same element skeleton as for a benign string, and the public reader must return the string before and after save/re-open. Exhaustive over catalogue x string set.",
+        text="142 (thorough ~365) string-accepting entry points (names, file names, hyperlink addresses, chart series / category / number-format fields per chart family for add_chart and replace_data, font names, prog-ids, mime type, core properties, renamed placeholders, plus TWIN sinks: two near-identical strings - case-swapped or with a trailing blank - stored side by side in one part; and the same address assigned twice) x 150 strings (all strings of length <= 2 over the XML metacharacters plus curated entity / CDATA / format-directive / enum-token-like / 255-character / escape-look-alike / normalisation-sensitive (decomposed, compatibility, no-break and ideographic space, non-BMP) strings): each call must not raise, the saved parts must re-parse with the same element skeleton as for a benign string, and the public reader must return the string before and after save/re-open. Exhaustive over catalogue x string set.",
         note="Trusted: bare lxml parsing of saved members; the sink catalogue in mc/props/c05.py (hover hyperlinks and OLE icon names are not reachable as XML sinks through the public API). Strings outside the XML Char production are out of the claim.",
         design="4/C05"),
     "C06": dict(
@@ -51,13 +51,13 @@ CHECKS.update({
     "C10": dict(
         level="exploration",
         technique="exhaustive enumeration of (registered element class, XSD complex type, mutator, sibling context) executed on the real element classes; child order decided by libxml2 against a mechanically relaxed copy of the ISO schemas",
-        text="196 registered tags / 156 classes / 1088 mutators found by reflection x sibling contexts generated from each type's particle tree (empty, each single kind, skeletons with every choice member, all earlier / all later, every ordered pair; thorough adds triples and 4-tuples): 205k (thorough 2.3M) judged insertions; get-or-add, remove and change-to promises checked on the same contexts.",
+        text="196 registered tags / 156 classes / 1088 mutators found by reflection x sibling contexts generated from each type's particle tree (empty, each single kind, skeletons with every choice member, all earlier / all later, every ordered pair; thorough adds triples and 4-tuples): 205k (thorough 2.3M) judged insertions; get-or-add, remove and change-to promises checked on the same contexts; 120 hand-written property setters driven with value tables and one-step histories (a setter must displace another member of the same exclusive choice).",
         note="Trusted: libxml2 on the relaxed schema (minOccurs=0, attributes optional: order and choice exclusivity only); mc/oracles/xsd.Index particle trees (cross-checked: every generated skeleton is accepted by libxml2). Only direct-child order of the modified parent is judged; deeper subtrees belong to C03.",
         design="4/C10"),
     "C18": dict(
         level="exploration",
         technique="bounded-exhaustive enumeration of assignments, assignment pairs, all years 1..9999 and every W3CDTF granularity x offset, executed on the real core-properties part; independent W3CDTF parser and libxml2 validation against opc-coreProperties.xsd",
-        text="15 properties x string classes and boundary lengths, 19 datetimes (naive and aware), revision values, all ordered pairs over a reduced value set, every year 1..9999 for the three date properties, 6 W3CDTF granularities x 115 time-zone designators read from injected XML, packages with and without a core-properties part, every corpus deck, two save/re-open cycles each, and two packages handled in one process (4 bases x 4 bases x overlap/sequential: a fresh default part reads what one reads in a pristine process, no cross-package interference); 37k evaluations, generator sizes asserted against closed forms.",
+        text="15 properties x string classes and boundary lengths, 19 datetimes (naive and aware), revision values, all ordered pairs over a reduced value set, every year 1..9999 for the three date properties, 6 W3CDTF granularities x 115 time-zone designators read from injected XML, packages with, without and with a frugally declared core-properties part, every corpus deck, two save/re-open cycles each, and two packages handled in one process (4 bases x 4 bases x overlap/sequential: a fresh default part reads what one reads in a pristine process, no cross-package interference); 37k evaluations, generator sizes asserted against closed forms.",
         note="Trusted: the three stub Dublin-Core/xml schemas in /verif/schemas (the real ones are imported by HTTP URL and cannot be fetched), libxml2, mc/oracles/w3cdtf_ref.py.",
         design="4/C18"),
 })
@@ -66,13 +66,13 @@ CHECKS.update({
     "C03": dict(
         level="model_checking",
         technique="exhaustive enumeration of operation histories (creator > formatting op > formatting op ...) from a catalogue, executed on the real API; every resulting XML part validated by libxml2 against the strict ISO schemas after MCE preprocessing; error-set monotonicity per part",
-        text="38 creators (every shape kind, all 29 writable chart types) x up to ~150 formatting operations per kind: all singles, all ordered pairs for the main kinds (thorough: pairs for every chart type, triples over text operations), slide-level operations and documented rejections on the default template, plus every applicable catalogue operation on shapes of all 68 corpus decks; each history leaves every p:/a:/c: part with no schema error it did not have initially.",
+        text="38 creators (every shape kind, all 29 writable chart types) x up to ~150 formatting operations per kind: all singles, all ordered pairs for the main kinds (thorough: pairs for every chart type, triples over text operations), slide-level operations and documented rejections (levels, colours, merges, chart styles, gap widths, axis units, point indices) on the default template, plus every applicable catalogue operation on shapes of all 68 corpus decks; each history leaves every p:/a:/c: part with no schema error it did not have initially.",
         note="Trusted: libxml2 XSD validation with the schemas in /repo/spec, MCE preprocessing in mc/oracles/xsd.py, the operation catalogue mc/props/c03_ops.py. Pre-existing errors of PowerPoint-authored parts are tolerated by construction (error-set rule).",
         design="4/C03"),
     "C04": dict(
         level="exploration",
         technique="bounded-exhaustive enumeration of all strings over a 14-character alphabet (length <= 3 / <= 4) x 4 assignment levels x 6 prior body states, plus all ordered assignment pairs, executed on real text bodies against a reference model of the documented translations",
-        text="Every string over {a, space, LF, VT, TAB, CR, NUL, BEL, US, <, &, astral, _, x} up to length 3 (thorough 4) plus 25 fixed longer strings (runs of 12 and 40 breaks, C1 controls, DEL, surrogate-adjacent code points, _xHHHH_ look-alikes of non-control code points), assigned at frame / cell / paragraph / run / shape level onto six prior bodies (fields, leading breaks, properties), all ordered pairs of assignments over the 24 level pairs, and strings of unusual TYPE (plain str subclass, subclass with its own __str__, str-enum member) at every level; getter at every level, a:p / a:br counts, a:pPr preservation, part-level re-parse and two real save/re-open cycles. Sizes asserted against closed forms.",
+        text="Every string over {a, space, LF, VT, TAB, CR, NUL, BEL, US, <, &, astral, _, x} up to length 3 (thorough 4) plus 25 fixed longer strings (runs of 12 and 40 breaks, C1 controls, DEL, surrogate-adjacent code points, _xHHHH_ look-alikes of non-control code points), assigned at frame / cell / paragraph / run / shape level onto six prior bodies (fields, leading breaks, properties), all ordered pairs of assignments over the 24 level pairs, and strings of unusual TYPE (plain str subclass, subclass with its own __str__, str-enum member) at every level, and table cells stored without a text body; getter at every level, a:p / a:br counts, a:pPr preservation, part-level re-parse and two real save/re-open cycles. Sizes asserted against closed forms.",
         note="Trusted: mc/oracles/text_ref.py (written from the statement), bare lxml reads of the body. Escape look-alike literals (_x000A_) are only judged for stability (statement silent).",
         design="4/C04"),
     "C12": dict(
@@ -84,7 +84,7 @@ CHECKS.update({
     "C16": dict(
         level="fault_enumeration",
         technique="exhaustive single-fault (and pairwise on small decks) injection into the zip/directory form of every corpus deck, opened with the real Presentation(); reachable remainder computed by an independent OPC reader",
-        text="Every relationship retargeted or its target deleted, every .rels item deleted, every Default/Override case-flipped or retyped, extra members, all slide-name permutations, removed core properties, directory form, truncation at every member boundary and mid-member (path and stream), non-zip bytes, wrong main type, missing mandatory members: 17k single faults on 69 decks plus 29k fault pairs on the smallest decks (thorough: 173k). Opening must preserve exactly what is still reachable, or refuse with the exception class the statement names.",
+        text="Every relationship retargeted or its target deleted, every .rels item deleted, every Default/Override case-flipped or retyped, extra members, all slide-name permutations, removed core properties, directory form, truncation at every member boundary and mid-member (path and stream), non-zip bytes, wrong main type (word-processing, spreadsheet, slide, template, show), missing mandatory members: 17k single faults on 69 decks plus 29k fault pairs on the smallest decks (thorough: 173k). Opening must preserve exactly what is still reachable, or refuse with the exception class the statement names.",
         note="Trusted: mc/oracles/opc_ref.py, the fault model mc/props/c16_faults.py (harness-side zip rewriting). Corrupt-member (bit-flip) faults are outside the statement's list and not injected.",
         design="4/C16"),
 })
@@ -93,7 +93,7 @@ CHECKS.update({
     "C01": dict(
         level="exploration",
         technique="deviation-bounded exhaustive enumeration of abstract OPC packages (every rooted relationship digraph x style vectors with <= 1 / <= 2 deviations from the default style), written by the harness's own zip writer, round-tripped through the real OpcPackage.open/save and compared by an independent OPC reader",
-        text="All rooted digraphs over k <= 3 parts (cycles, self-loops, shared targets; thorough: k = 4 by isomorphism class) x style vectors (target form, Default/Override/case variants, several parts sharing an extension, id schemes incl. non-rId ids, payload kinds incl. XML with comments/PIs for parsed parts, zip path/stream/directory, orphans, parallel edges, external relationships) over a 7-name alphabet (sibling directories with a common string prefix that share a deeper folder name, upper-case extension, bracketed and percent-escaped name, extension-less) within the deviation bound, successive packages through one re-used input and output path per worker, plus all 68 corpus decks through OpcPackage and Presentation; 85k (thorough ~700k) packages, sizes asserted against closed forms; save(open(out)) must be byte-identical per member.",
+        text="All rooted digraphs over k <= 3 parts (cycles, self-loops, shared targets; thorough: k = 4 by isomorphism class) x style vectors (target form, Default/Override/case variants, several parts sharing an extension, id schemes incl. non-rId ids, payload kinds incl. XML with comments/PIs for parsed parts, zip path/stream/directory, orphans, parallel edges, external relationships) over a 7-name alphabet (sibling directories with a common string prefix that share a deeper folder name, upper-case extension, bracketed, percent-escaped name holding a no-break space and a decomposed accent, extension-less) within the deviation bound, successive packages through one re-used input and output path per worker, plus all 68 corpus decks through OpcPackage and Presentation; 85k (thorough ~700k) packages, sizes asserted against closed forms; save(open(out)) must be byte-identical per member.",
         note="Trusted: mc/oracles/opc_ref.py, the generator mc/props/c01_gen.py (opc_ref must agree with the abstract model on every generated input or the run is a harness error). Zip-level variations (member order, stored vs deflated, Zip64) are not modelled.",
         design="4/C01"),
 })
